@@ -25,28 +25,28 @@ CHECKS = {
          "The spawning thread blocks a generated set of signals and the harness sets SIGPIPE to ignored/default/handler; each child (helper built with #![no_main] so that no runtime touches the signal state) reports its mask and dispositions; a flooding child must die of SIGPIPE.",
          "Trusts /proc/self/status of the child.", "DESIGN.md 4 (C18)", "real"),
 
- "C01": ("exploration", "proptest-generated child scripts x schedules x pipe capacities on a simulated kernel (link-time interposed libc); wait-for-cycle and call-budget oracle",
+ "C01": ("exploration", "proptest-generated child scripts x schedules x pipe capacities on a simulated kernel (link-time interposed libc); wait-for-cycle, call-budget and CPU-spin oracles; real-process tier; libFuzzer stage in thorough",
          "The real Communicator code runs against a deterministic simulated kernel in which the generated case contains the child's I/O script, the interleaving at system-call granularity, pipe capacities/flavours and sizes; a hang becomes an assertion failure (wait-for cycle or call budget) that shrinks and replays.",
          "Trusts the simulated pipe/poll model (differential-tested against real kernel pipes at every run) and the call budget as the definition of 'finishes'.", "DESIGN.md 2.1, 3 (C01)", "simk"),
- "C02": ("exploration", "as C01 plus short-read/short-write plans; ground-truth byte record of the simulated child as oracle",
+ "C02": ("exploration", "as C01 plus short-read/short-write plans; ground-truth byte record of the simulated child as oracle; real-process tier (helper reports hash of what it received); libFuzzer stage in thorough",
          "Byte exactness in both directions, absence of unpiped streams, EOF placement and the text variant are compared with the simulator's record of what the scripted child really wrote and read, under generated short reads/writes.",
          "Same trusted base as C01.", "DESIGN.md 3 (C02)", "simk"),
- "C03": ("exploration", "proptest histories of size limits on the simulated kernel; per-read bound + concatenation = record",
+ "C03": ("exploration", "proptest histories of size limits on the simulated kernel; per-read bound + concatenation = record; real-process tier; libFuzzer stage in thorough",
          "Histories of reads with changing size limits while the scripted child writes to both streams; every piece is bounded, pieces concatenate to the record, empty only at EOF (checked against simulator state at the instant of return).",
          "Same trusted base as C01.", "DESIGN.md 3 (C03)", "simk"),
- "C04": ("exploration", "proptest histories of time limits on a virtual clock; exact virtual-time bounds",
+ "C04": ("exploration", "proptest histories of time limits on a virtual clock (incl. EINTR injection); exact virtual-time bounds; real-process tier; libFuzzer stage in thorough",
          "Time limits from 0 to 10 years against silent / trickling / flooding / stdin-closing children on a virtual clock: lateness is bounded in calls entered after the deadline, TimedOut only within 1 ms of the deadline, never without a limit, continuity across resumed reads.",
          "Same trusted base as C01; virtual clock advances by a per-call cost and by blocking polls.", "DESIGN.md 3 (C04)", "simk"),
  "C06": ("exploration", "proptest-generated argv/env/cwd/identity; byte-for-byte self-report of a real helper child",
          "Real children (helper hard-linked into a scratch directory, mode chosen by a sidecar file so that argv and environment stay under test) report argv, environ, cwd, uids/gids, pgid and /proc/self/exe; compared with the request and a last-wins model; NUL injection must be refused before fork.",
          "Trusts the helper's self-report and /proc; runs as root so identity changes really happen.", "DESIGN.md 4 (C06)", "real"),
- "C09": ("exploration", "proptest call histories against a reference model on a simulated process table",
+ "C09": ("exploration", "proptest call histories against a reference model on a simulated process table; real children for all exit codes / fatal signals; libFuzzer stage in thorough",
          "Histories of poll/wait/wait_timeout/pid/exit_status/signals/detach/external reaping over a fake-fork Popen whose waitpid/kill/clock are served by a simulator; results are compared with the decoded ground truth and the syscall log is audited for calls after the status is final.",
          "Trusts the simulated waitpid/kill semantics (Linux status words, ECHILD after reaping).", "DESIGN.md 5 (C09)", "simproc"),
- "C10": ("exploration", "same histories; audit of the simulated kill log",
+ "C10": ("exploration", "same histories (incl. process-group leaders); audit of the simulated kill/killpg log; libFuzzer stage in thorough",
          "Every kill the crate issues is logged with the target's state; exactly one correct signal to the child's pid while the status is unknown, none afterwards, never another pid.",
          "Same as C09.", "DESIGN.md 5 (C10)", "simproc"),
- "C11": ("exploration", "durations x exit placements on a virtual clock; exact timing and call-count bounds",
+ "C11": ("exploration", "durations x exit placements on a virtual clock; exact timing and call-count bounds; libFuzzer stage in thorough",
          "wait_timeout(d) and poll() run on a virtual clock: return instants, number of status checks, sleeps between checks and sleeps beyond the deadline are bounded exactly.",
          "Same as C09; sleeping = interposed nanosleep/clock_nanosleep.", "DESIGN.md 5 (C11)", "simproc"),
  "C12": ("exploration", "proptest (handle kind x child behaviour x drop point) with real children; wait-for-graph deadlock oracle + zombie audit",
@@ -96,8 +96,8 @@ def main():
             na.append({"property_id": pid, "reason": NOT_YET.get(pid, "check not built yet in this round (construction order in DESIGN.md section 9); no claim is made until it exists")})
     engines = [
         {"name": "win", "path": "harness/wincheck", "serves_properties": ["C20"], "kind_free_text": "cfg(windows) code extracted from /repo at build time, compiled on Linux against a UTF-16 shim; proptest + exhaustive enumeration"},
-        {"name": "simk", "path": "harness/src/simk.rs", "serves_properties": ["C01", "C02", "C03", "C04"], "kind_free_text": "deterministic simulated kernel (pipes, poll, virtual clock, scripted child) behind link-time interposed libc symbols; proptest-generated scripts, schedules, short-I/O plans"},
-        {"name": "simproc", "path": "harness/src/simproc.rs", "serves_properties": ["C09", "C10", "C11"], "kind_free_text": "simulated process table and virtual clock behind interposed fork/waitpid/kill/clock/sleep; proptest-generated call histories against a reference model"},
+        {"name": "simk", "path": "harness/src/simk.rs (+ harness/fuzz/fuzz_targets/simk.rs)", "serves_properties": ["C01", "C02", "C03", "C04"], "kind_free_text": "deterministic simulated kernel (pipes, poll, virtual clock, scripted child) behind link-time interposed libc symbols; proptest-generated scripts, schedules, short-I/O plans"},
+        {"name": "simproc", "path": "harness/src/simproc.rs (+ harness/fuzz/fuzz_targets/simproc.rs)", "serves_properties": ["C09", "C10", "C11"], "kind_free_text": "simulated process table and virtual clock behind interposed fork/waitpid/kill/clock/sleep; proptest-generated call histories against a reference model"},
         {"name": "real", "path": "harness/src/real.rs", "serves_properties": ["C05", "C06", "C07", "C08", "C12", "C13", "C14", "C15", "C16", "C17", "C18", "C19"], "kind_free_text": "real child processes (helper vchild) with fault injection, descriptor/zombie audits, pipe registry, allocation probe"},
     ]
     claimed = {c["property_id"] for c in checks}
